@@ -165,7 +165,7 @@ def header_codec(run):
 
 # ----------------------------------------------------------------------------- bounded: real round trips
 def bounded(run):
-    cnt = 400 if run.tier == "quick" else 6000
+    cnt = 400 if run.tier == "quick" else 6000 * run.tmul
     jobs = [dict(seed=run.seed * 37 + k, count=cnt // 8) for k in range(8)]
     res, errs = native.pmap("contracts.C16", "nat_roundtrip", jobs)
     run.worker_errors(errs, len(jobs))
